@@ -39,7 +39,7 @@ def run(tier, seed):
                                           [("mem", 1, 40, 1), ("mem", 0, 30, 1), ("kv", 1, 20, 1)])
     for i, (cfg, nofw, progs, ext) in enumerate(plans):
         tr = os.path.join(wd, f"cancel_{i}_{cfg}.ndjson")
-        vp.run([os.path.join(bd, "eng_cancel"), "--cfg", cfg, "--nofw", str(nofw), "--progs", str(progs),
+        vp.run_subject([os.path.join(bd, "eng_cancel"), "--cfg", cfg, "--nofw", str(nofw), "--progs", str(progs),
                 "--ext", str(ext), "--seed", str(seed * 10 + i), "--out", tr, "--cases", tr + ".cases"], timeout=3000)
         traces.append({"trace": tr, "cases": tr + ".cases", "origin": f"{cfg} nofw={nofw}"})
     summary = ec.collect(PID, traces, verdict, known, "mem")
@@ -86,7 +86,7 @@ def replay(path):
     cin = os.path.join(wd, "case.ndjson")
     open(cin, "w").write(json.dumps(rp["case"]) + "\n")
     tr = os.path.join(wd, "t.ndjson")
-    vp.run([os.path.join(bd, "eng_cancel"), "--mode", "replay", "--in", cin, "--out", tr], timeout=600)
+    vp.run_subject([os.path.join(bd, "eng_cancel"), "--mode", "replay", "--in", cin, "--out", tr], timeout=600)
     res, _ = ec.validate(tr, tr + ".result.json")
     known = ec.known_ids_for(PID)
     bad = [v for v in res["viol"] if v["kind"] in KINDS]
@@ -107,7 +107,7 @@ def selftest(seed):
     bd = vp.build()
     wd = vp.clean_workdir(PID + "-selftest")
     tr = os.path.join(wd, "t.ndjson")
-    vp.run([os.path.join(bd, "eng_cancel"), "--cfg", "mem", "--nofw", "1", "--progs", "1", "--seed", str(seed),
+    vp.run_subject([os.path.join(bd, "eng_cancel"), "--cfg", "mem", "--nofw", "1", "--progs", "1", "--seed", str(seed),
             "--out", tr, "--cases", tr + ".cases"], timeout=600)
     ev = vp.read_ndjson(tr)
     # (1) a panic that reaches the user without an armed executor having run must be flagged
